@@ -15,8 +15,13 @@ CALLS = {"fabs": "abs", "sqrt": "sqrt", "log": "log", "exp": "exp", "pow": "pow"
 
 
 class Effect:
-    def __init__(self, arr, idx, op, val, conds, line):
+    def __init__(self, arr, idx, op, val, conds, line, loops=()):
         self.arr, self.idx, self.op, self.val, self.conds, self.line = arr, idx, op, val, list(conds), line
+        self.loops = tuple(loops)        # loop variables of the summarised loops the effect sits in (outermost first)
+
+    def __repr__(self):
+        from .formula import show
+        return f"{self.arr}[{show(self.idx) if self.idx is not None else ''}] {self.op} {show(self.val) if isinstance(self.val, tuple) and self.val and isinstance(self.val[0], str) else self.val} if {[(show(c), t) for c, t in self.conds]} in {self.loops}"
 
 
 class Stop(Exception):
@@ -117,6 +122,10 @@ class CEval:
         self.returns = []
         self.maxpaths = 256
         self.npaths = 0
+        self.summarise_loops = False     # True: a nested loop is evaluated for one symbolic iteration (see _loop)
+        self.loopctx = ()
+        self.loop_returns = []           # (value | kind, conds, line, loops) of return / break inside summarised loops
+        self.finals = []                 # (env, conds, how) at every path end: how = 'end' | 'return' | 'BreakStmt' | 'ContinueStmt'
 
     def ex(self, e, env):
         return self.resolve(to_expr(e, env, self.arrays))
@@ -197,6 +206,37 @@ class CEval:
             return True
         return False
 
+    def _loop(self, loop, env, conds):
+        """one symbolic iteration: scalars assigned in the loop are unknown on entry of an iteration and after the loop,
+        array elements stored in the loop are forgotten; effects are tagged with the loop variable"""
+        from .cnorm import writes
+        wsc, war, _ = writes(loop)
+        v = loop_var(loop) or "?"
+        sub_env = {k: x for k, x in env.items() if k not in wsc and not any(k.startswith(a + "[") for a in war)}
+        parts = loop_parts(loop) if loop["kind"] in ("ForStmt", "WhileStmt") else ({}, loop["inner"][1], {}, loop["inner"][0])
+        sub = CEval(self.oracle, self.arrays)
+        sub.summarise_loops = True
+        sub.loopctx = self.loopctx + (v,)
+        sub.maxpaths = self.maxpaths
+        cnd = parts[1]
+        c0 = []
+        if cnd.get("kind"):
+            try:
+                c0 = [(sub.ex(cnd, dict(sub_env)), True)]
+            except Undecided:
+                c0 = []
+        sub._walk(body_stmts(parts[3]), dict(sub_env), list(conds) + c0)
+        for e in sub.effects:
+            e.loops = (v,) + tuple(e.loops) if not e.loops or e.loops[0] != v else e.loops
+            self.effects.append(e)
+        for r in sub.returns:
+            if r[0] not in ("end", "ContinueStmt"):
+                self.loop_returns.append((r[0], r[1], r[2], sub.loopctx))
+        self.loop_returns += sub.loop_returns
+        for k in list(env):
+            if k in wsc or any(k.startswith(a + "[") for a in war):
+                del env[k]
+
     def _walk(self, stmts, env, conds):
         self.npaths += 1
         if self.npaths > self.maxpaths:
@@ -234,12 +274,17 @@ class CEval:
             if k == "ReturnStmt":
                 v = self.ex(s["inner"][0], env) if s.get("inner") else None
                 self.returns.append((v, list(conds), s.get("_line")))
+                self.finals.append((dict(env), list(conds), "return"))
                 return
             if k in ("BreakStmt", "ContinueStmt"):
                 self.returns.append((k, list(conds), s.get("_line")))
+                self.finals.append((dict(env), list(conds), k))
                 return
             if k in ("ForStmt", "WhileStmt", "DoStmt"):
-                raise Undecided("loop inside an evaluated block")
+                if not self.summarise_loops:
+                    raise Undecided("loop inside an evaluated block")
+                self._loop(s, env, conds)
+                continue
             if self._assign(strip(s) if s.get("kind") == "ParenExpr" else s, env, conds):
                 continue
             if k == "CallExpr":
@@ -254,6 +299,7 @@ class CEval:
                 return
             raise Undecided(f"C statement {k}")
         self.returns.append(("end", list(conds), None))
+        self.finals.append((dict(env), list(conds), "end"))
 
 
 # --------------------------------------------------------------------------- navigation helpers
